@@ -94,6 +94,28 @@ func main() {
 			os.Exit(2)
 		}
 		fmt.Printf("wrote %d function keys to %s\n", len(keys), knownFuncsPath())
+		kf, err := genKnownFields(*repo)
+		if err != nil || len(kf) < 20 {
+			fmt.Println("gen-known fields:", err, len(kf))
+			os.Exit(2)
+		}
+		b, _ = json.MarshalIndent(kf, "", " ")
+		if err := os.WriteFile(knownFieldsPath(), append(b, '\n'), 0o644); err != nil {
+			fmt.Println(err)
+			os.Exit(2)
+		}
+		fmt.Printf("wrote %d struct types to %s\n", len(kf), knownFieldsPath())
+		ki, err := genKnownIdents(*repo)
+		if err != nil || len(ki) < 50 {
+			fmt.Println("gen-known idents:", err, len(ki))
+			os.Exit(2)
+		}
+		b, _ = json.MarshalIndent(ki, "", " ")
+		if err := os.WriteFile(knownIdentsPath(), append(b, '\n'), 0o644); err != nil {
+			fmt.Println(err)
+			os.Exit(2)
+		}
+		fmt.Printf("wrote %d package-level identifiers to %s\n", len(ki), knownIdentsPath())
 		return
 	}
 
